@@ -1,0 +1,289 @@
+/* -*- C++ -*-
+ * Verification hooks (runtime monitoring). Everything in this header is inert unless the
+ * build defines DANMAR_CPPCHECK_VERIF; call sites are guarded by the same macro.
+ *
+ *  H2 schedPoint(site)    seeded delays between critical sections + event log
+ *  H3 crashPoint(kind)    counted kill points for interrupted-run enumeration
+ *  H4 workerFault(...)    make a forked worker die before its k-th pipe message
+ *  H5 mcVerify(...)       counters for the match compiler's verify mode
+ *
+ * State is atomic or thread-local; logs are written with single O_APPEND write() calls.
+ */
+#ifndef verifhooksH
+#define verifhooksH
+
+#ifdef DANMAR_CPPCHECK_VERIF
+
+#include <atomic>
+#include <cstdint>
+#include <cstdio>
+#include <cstdlib>
+#include <cstring>
+#include <string>
+
+#include <csignal>
+#include <fcntl.h>
+#include <unistd.h>
+
+namespace verifhooks {
+
+    inline void appendLine(const char *envname, const std::string &line)
+    {
+        const char *path = std::getenv(envname);
+        if (!path || !*path)
+            return;
+        const int fd = ::open(path, O_WRONLY | O_CREAT | O_APPEND, 0644);
+        if (fd < 0)
+            return;
+        const ssize_t r = ::write(fd, line.data(), line.size());
+        (void)r;
+        ::close(fd);
+    }
+
+    // ---------------------------------------------------------------- H2
+    inline std::atomic<unsigned long> &schedCounter()
+    {
+        static std::atomic<unsigned long> c{0};
+        return c;
+    }
+
+    /** Seeded delay between critical sections. Never call while holding a lock. */
+    inline void schedPoint(const char *site, const std::string &detail = std::string())
+    {
+        static const char * const seedEnv = std::getenv("VERIF_SCHED_SEED");
+        static const char * const logEnv = std::getenv("VERIF_SCHED_LOG");
+        if (!seedEnv && !logEnv)
+            return;
+        const unsigned long n = schedCounter().fetch_add(1);
+        if (seedEnv) {
+            static const unsigned long seed = std::strtoul(seedEnv, nullptr, 10);
+            static const unsigned long maxUs = std::getenv("VERIF_SCHED_MAX_US") ? std::strtoul(std::getenv("VERIF_SCHED_MAX_US"), nullptr, 10) : 2000UL;
+            // splitmix64 over (seed, n, site) so every point gets an independent delay
+            std::uint64_t z = seed * 0x9E3779B97F4A7C15ULL + n * 0xBF58476D1CE4E5B9ULL;
+            for (const char *p = site; *p; ++p)
+                z = (z ^ static_cast<unsigned char>(*p)) * 0x100000001B3ULL;
+            z = (z ^ (z >> 30)) * 0xBF58476D1CE4E5B9ULL;
+            z = (z ^ (z >> 27)) * 0x94D049BB133111EBULL;
+            z = z ^ (z >> 31);
+            if (maxUs > 0 && (z & 3U) != 0U)  // 3 of 4 points sleep
+                ::usleep(static_cast<useconds_t>((z >> 8) % (maxUs + 1)));
+        }
+        if (logEnv) {
+            std::string line = std::to_string(n);
+            line += ' ';
+            line += std::to_string(static_cast<long>(::getpid()));
+            line += ' ';
+            line += site;
+            if (!detail.empty()) {
+                line += ' ';
+                line += detail;
+            }
+            line += '\n';
+            appendLine("VERIF_SCHED_LOG", line);
+        }
+    }
+
+    // ---------------------------------------------------------------- H3
+    struct CrashState {
+        std::atomic<long> total{0};
+    };
+    inline CrashState &crashState()
+    {
+        static CrashState s;
+        return s;
+    }
+    /** scope name for the crash counters: "main" or the file a forked worker analyses */
+    inline std::string &crashScope()
+    {
+        static std::string s = "main";
+        return s;
+    }
+    inline void enterWorkerScope(const std::string &file)
+    {
+        crashScope() = file;
+        crashState().total = 0;
+    }
+
+    /**
+     * Counted kill point. VERIF_CRASH_AT=<scope-suffix>:<k>[:flush]  => the k-th point (1-based)
+     * reached in the process whose scope ends with <scope-suffix> kills the whole process group.
+     * VERIF_CRASH_LOG=<file> => every point is logged as "<scope> <k> <kind>".
+     * @param flusher optional stream to flush first when ":flush" is requested
+     */
+    template<class Stream>
+    inline void crashPointS(const char *kind, Stream *flusher)
+    {
+        static const char * const atEnv = std::getenv("VERIF_CRASH_AT");
+        static const char * const logEnv = std::getenv("VERIF_CRASH_LOG");
+        if (!atEnv && !logEnv)
+            return;
+        const long k = crashState().total.fetch_add(1) + 1;
+        if (logEnv)
+            appendLine("VERIF_CRASH_LOG", crashScope() + " " + std::to_string(k) + " " + kind + "\n");
+        if (atEnv) {
+            // parse "<scope>:<k>[:flush]" from the right
+            std::string spec(atEnv);
+            bool flush = false;
+            const std::string fl(":flush");
+            if (spec.size() > fl.size() && spec.compare(spec.size() - fl.size(), fl.size(), fl) == 0) {
+                flush = true;
+                spec.erase(spec.size() - fl.size());
+            }
+            const std::string::size_type pos = spec.rfind(':');
+            if (pos == std::string::npos)
+                return;
+            const std::string scope = spec.substr(0, pos);
+            const long at = std::strtol(spec.c_str() + pos + 1, nullptr, 10);
+            const std::string &mine = crashScope();
+            const bool scopeMatch = mine.size() >= scope.size() && mine.compare(mine.size() - scope.size(), scope.size(), scope) == 0;
+            if (scopeMatch && at == k) {
+                if (flush && flusher)
+                    flusher->flush();
+                appendLine("VERIF_CRASH_FIRED", mine + " " + std::to_string(k) + " " + kind + "\n");
+                ::kill(0, SIGKILL); // the whole process group, like an external kill of the run
+                ::_exit(137);
+            }
+        }
+    }
+    struct NoStream { void flush() {} };
+    inline void crashPoint(const char *kind)
+    {
+        crashPointS<NoStream>(kind, nullptr);
+    }
+
+    // ---------------------------------------------------------------- H4
+    inline std::string &workerFile()
+    {
+        static std::string s;
+        return s;
+    }
+    inline long &workerMsgCount()
+    {
+        static long n = 0;
+        return n;
+    }
+    inline void workerStart(const std::string &file)
+    {
+        workerFile() = file;
+        workerMsgCount() = 0;
+        enterWorkerScope(file);
+    }
+    inline void dieAs(const std::string &mode)
+    {
+        if (mode == "segv") {
+            ::signal(SIGSEGV, SIG_DFL);
+            ::raise(SIGSEGV);
+        } else if (mode == "kill") {
+            ::raise(SIGKILL);
+        } else if (mode == "abort") {
+            ::signal(SIGABRT, SIG_DFL);
+            ::abort();
+        } else if (mode == "exit3") {
+            ::_exit(3);
+        }
+        ::_exit(99);
+    }
+    /**
+     * VERIF_WORKER_FAULT=<path-suffix>:<k|end>:<segv|kill|abort|exit3>[,<more specs>]
+     * Called before every pipe message of a worker (atEnd=false) and once after CHILD_END
+     * (atEnd=true). VERIF_WORKER_LOG=<file> => "<file> <messages sent>" at worker end.
+     */
+    inline void workerFault(bool atEnd)
+    {
+        static const char * const env = std::getenv("VERIF_WORKER_FAULT");
+        const long sent = workerMsgCount();
+        if (!atEnd)
+            ++workerMsgCount();
+        else
+            appendLine("VERIF_WORKER_LOG", workerFile() + "\t" + std::to_string(sent) + "\n");
+        if (!env)
+            return;
+        std::string all(env);
+        std::string::size_type start = 0;
+        while (start <= all.size()) {
+            std::string::size_type end = all.find(',', start);
+            if (end == std::string::npos)
+                end = all.size();
+            const std::string spec = all.substr(start, end - start);
+            start = end + 1;
+            const std::string::size_type p2 = spec.rfind(':');
+            if (p2 == std::string::npos || p2 == 0)
+                continue;
+            const std::string::size_type p1 = spec.rfind(':', p2 - 1);
+            if (p1 == std::string::npos)
+                continue;
+            const std::string suffix = spec.substr(0, p1);
+            const std::string kstr = spec.substr(p1 + 1, p2 - p1 - 1);
+            const std::string mode = spec.substr(p2 + 1);
+            const std::string &f = workerFile();
+            if (f.size() < suffix.size() || f.compare(f.size() - suffix.size(), suffix.size(), suffix) != 0)
+                continue;
+            if (kstr == "end") {
+                if (atEnd) {
+                    appendLine("VERIF_WORKER_FIRED", f + "\tend\t" + mode + "\n");
+                    dieAs(mode);
+                }
+            } else if (!atEnd && std::strtol(kstr.c_str(), nullptr, 10) == sent) {
+                appendLine("VERIF_WORKER_FIRED", f + "\t" + kstr + "\t" + mode + "\n");
+                dieAs(mode);
+            }
+        }
+    }
+
+    // ---------------------------------------------------------------- H5
+    /** one site per generated verify function; sites are never destroyed and are dumped at
+     *  exit as "<pattern>\t<true>\t<false>" lines into VERIF_MC_LOG */
+    struct McSite {
+        const char *pattern;
+        std::atomic<unsigned long> t;
+        std::atomic<unsigned long> f;
+        McSite *next;
+    };
+    inline std::atomic<McSite*> &mcHead()
+    {
+        static std::atomic<McSite*> head{nullptr};
+        return head;
+    }
+    inline void mcDump()
+    {
+        const char *path = std::getenv("VERIF_MC_LOG");
+        if (!path || !*path)
+            return;
+        std::string out;
+        for (const McSite *s = mcHead().load(); s; s = s->next) {
+            out += s->pattern;
+            out += '\t';
+            out += std::to_string(s->t.load());
+            out += '\t';
+            out += std::to_string(s->f.load());
+            out += '\n';
+        }
+        appendLine("VERIF_MC_LOG", out);
+    }
+    inline McSite *mcRegister(const char *pattern)
+    {
+        static const bool registered = (std::atexit(mcDump), true);
+        (void)registered;
+        McSite *s = new McSite{pattern, {0}, {0}, nullptr};
+        McSite *h = mcHead().load();
+        do {
+            s->next = h;
+        } while (!mcHead().compare_exchange_weak(h, s));
+        return s;
+    }
+    inline void mcVerify(McSite *site, bool result)
+    {
+        if (result)
+            site->t.fetch_add(1, std::memory_order_relaxed);
+        else
+            site->f.fetch_add(1, std::memory_order_relaxed);
+    }
+    inline void mcMismatch(const char *pattern, const std::string &tokens)
+    {
+        appendLine("VERIF_MC_MISMATCH", std::string(pattern) + "\t" + tokens + "\n");
+    }
+}
+
+#endif // DANMAR_CPPCHECK_VERIF
+
+#endif // verifhooksH
